@@ -109,11 +109,26 @@ def guarded_claim(fn):
 
     @functools.wraps(fn)
     def wrapper(ctx, name, *a, **k):
+        from .harness import SectionTimeout, watchdog, section_budget
+        wd = watchdog(0.5 * section_budget(ctx.tier), name)
+        t_start = time.time()
         try:
-            return fn(ctx, name, *a, **k)
+            with wd:
+                return fn(ctx, name, *a, **k)
+        except SectionTimeout as exc:
+            if exc.token is not wd.token:
+                raise
+            ctx.add(Ob(name + ".budget.claim", "guard", "undecided", "watchdog", wd.seconds,
+                       "claim not decided within %.0f s (VERIF_SECTION_BUDGET): the engine does not finish on this code" % wd.seconds))
+            return None
         except Exception:
             ctx.add(Ob(name + ".engine", "guard", "error", "python", 0.0, traceback.format_exc()[-1500:]))
             return None
+        finally:
+            try:
+                ctx.claim_times.append((round(time.time() - t_start, 2), name))
+            except AttributeError:
+                pass
     return wrapper
 
 
@@ -415,8 +430,32 @@ def cross_check(ctx, name, symbols, code, got_exprs, domain, py=None, tol=1e-9, 
             continue
         n_ok += 1
         sc = max([abs(x) for x in sym] + [1e-300])
-        for a, b in zip(native, sym):
+        for idx_, (a, b) in enumerate(zip(native, sym)):
             if not _close(a, b, tol, sc, atol):
+                # engine wrong, or the code numerically unstable in float64?  The expression the engine derived follows the
+                # code's own operations: evaluated with 53-bit arithmetic it shows the same loss when the loss is the code's
+                unstable = False
+                try:
+                    # (constants passed as arguments: substituting them first would let sympy re-collect the terms)
+                    cp_ = const_point(py)
+                    csyms = sorted(cp_, key=lambda s_: s_.name)
+                    f53 = sp.lambdify(list(symbols) + csyms, [sp.sympify(got_exprs[idx_])], modules="mpmath")
+                    with mpmath.workprec(53):
+                        v53 = f53(*([mpmath.mpf(pt[s]) for s in symbols] + [mpmath.mpf(float(cp_[c_])) for c_ in csyms]))[0]
+                    s53 = {idx_: float(mpmath.re(v53))}
+                    unstable = not _close(s53[idx_], b, tol * 0.01, sc, atol * 0.01)
+                except Exception:
+                    s53 = None
+                if unstable:
+                    inputs = {s.name: pt[s] for s in symbols}
+                    ctx.add(Ob(name + ".float64", "standin", "failed", "cpython-crosscheck(float64 run vs exact value of the same operations)", time.time() - t0,
+                               "result cell %d: the real function returns %r in float64; the exact value of the operations it performs (the value the contract "
+                               "is proved for) is %r; the same operations evaluated with 53-bit arithmetic give %r: the computation is numerically "
+                               "unstable at this input (relative tolerance %g)" % (idx_, a, b, s53[idx_], tol),
+                               cex=dict(point=inputs, cell=idx_),
+                               native=dict(reproduced=True, inputs=inputs, cell=idx_, float64_result_of_real_code=a, exact_value=b,
+                                           same_operations_53_bit=s53[idx_], tolerance=tol), bounded=True))
+                    return False
                 ctx.add(Ob(name + ".crosscheck", "guard", "error", "cpython-crosscheck", time.time() - t0,
                            "symbolic execution disagrees with native execution at %r: native %r, symbolic %r"
                            % ({s.name: pt[s] for s in symbols}, a, b)))
